@@ -860,22 +860,34 @@ func genField(r *rand.Rand, t *wtype, s slot, over bool) fval {
 		return fval{b: randTerm(r, n)}
 	case sFvec:
 		c, sz := s.n, s.size
-		bad := -1
+		bad, bad2 := -1, -1
 		if over {
-			switch r.Intn(3) {
+			switch r.Intn(4) {
 			case 0:
 				c++
 			case 1:
 				c--
-			default:
+			case 2:
 				bad = r.Intn(c)
+			default:
+				// two items of the wrong size whose errors cancel out (one byte long, one byte short): the total is right
+				if c >= 2 {
+					bad = r.Intn(c)
+					bad2 = (bad + 1 + r.Intn(c-1)) % c
+				} else {
+					bad = 0
+				}
 			}
 		}
 		items := make([]Term, c)
+		d := 1 - 2*r.Intn(2)
 		for i := range items {
 			n := sz
 			if i == bad {
-				n += 1 - 2*r.Intn(2)
+				n += d
+			}
+			if i == bad2 {
+				n -= d
 			}
 			items[i] = randTerm(r, n)
 		}
@@ -1032,6 +1044,17 @@ func boundaryFields(s slot, thorough bool) []fval {
 	case sFvec:
 		if s.n*s.size <= budget {
 			out = append(out, items(s.n, s.size), items(s.n+1, s.size), items(s.n-1, s.size))
+		}
+		if s.n >= 2 && s.n*s.size <= 4<<20 {
+			// the right number of items and the right total, but one item a byte long and another a byte short
+			c := items(s.n, s.size)
+			c.items = append([]Term{}, c.items...)
+			c.items[0], c.items[s.n-1] = gen(s.size+1, 5), gen(s.size-1, 6)
+			out = append(out, c)
+			c2 := items(s.n, s.size)
+			c2.items = append([]Term{}, c2.items...)
+			c2.items[s.n/2], c2.items[s.n/2-1] = gen(0, 5), gen(2*s.size, 6)
+			out = append(out, c2)
 		}
 	case sBytes:
 		if s.maxN <= budget {
